@@ -105,7 +105,31 @@ def alt_multiwalk(src):
     open(p, "w").write(s[:a] + new + s[b:])
 
 
-ALTS = {"ids": alt_ids, "socket": alt_socket, "multiwalk": alt_multiwalk}
+def alt_rawdigest(src):
+    """the incoming digest is verified over the bytes AS RECEIVED (digest octets zeroed in place) instead of over a
+    re-serialisation -- i.e. a repair of known finding reencoded_len_127; the KNOWN-FINDING line must disappear"""
+    rep(src + "/puresnmp/adt.py", "        return cls.from_sequence(message)  # type: ignore",
+        "        output = cls.from_sequence(message)  # type: ignore\n"
+        "        object.__setattr__(output, \"_raw\", bytes(data))\n"
+        "        return output")
+    old = ("    auth_method = auth.create(credentials.auth.method)\n"
+           "    without_digest = reset_digest(message)\n"
+           "    is_authentic = auth_method.authenticate_incoming_message(\n"
+           "        credentials.auth.key,\n"
+           "        bytes(without_digest),\n")
+    new = ("    auth_method = auth.create(credentials.auth.method)\n"
+           "    raw = getattr(message, \"_raw\", None)\n"
+           "    if raw is not None and len(security_params.auth_params) == 12 and raw.count(security_params.auth_params) == 1:\n"
+           "        zeroed = raw.replace(security_params.auth_params, b\"\\x00\" * 12, 1)\n"
+           "    else:\n"
+           "        zeroed = bytes(reset_digest(message))\n"
+           "    is_authentic = auth_method.authenticate_incoming_message(\n"
+           "        credentials.auth.key,\n"
+           "        zeroed,\n")
+    rep(src + "/puresnmp_plugins/security/usm.py", old, new)
+
+
+ALTS = {"ids": alt_ids, "socket": alt_socket, "multiwalk": alt_multiwalk, "rawdigest": alt_rawdigest}
 
 
 def main():
@@ -131,6 +155,8 @@ def main():
                 p = subprocess.run(["./check", pid, "--quick"], cwd=VERIF, env=env, text=True, stdout=subprocess.PIPE,
                                    stderr=subprocess.STDOUT)
                 last = [l for l in p.stdout.splitlines() if l.startswith(pid + " ")][-1:] or [p.stdout[-200:]]
+                if any(l.startswith("KNOWN-FINDING") for l in p.stdout.splitlines()):
+                    last[0] += "  [KNOWN-FINDING line printed]"
                 flag = "" if p.returncode == 0 else "   <<<<<< FALSE ALARM rc=%d" % p.returncode
                 print("[%s] %s%s" % (name, last[0], flag), flush=True)
                 if p.returncode:
